@@ -248,6 +248,7 @@ def error_to_message(old_pr, log):
             return not event.is_last
 
         e = event.exception
+        from_renderer = False
 
         if isinstance(e, error.RenderableError):
             # the repr() here is quite important for garbage collection
@@ -267,6 +268,7 @@ def error_to_message(old_pr, log):
                     raise ValueError(
                         "Exception to_message failed to produce a message on %r" % e
                     )
+                from_renderer = True
             except Exception as e2:
                 log.error(
                     "Rendering the renderable exception failed: %r", e2, exc_info=e2
@@ -278,13 +280,25 @@ def error_to_message(old_pr, log):
             )
             msg = Message(code=INTERNAL_SERVER_ERROR)
 
-        if msg.opt.no_response is None and not msg.code.is_successful():
-            # Like with responses returned from a render method, the
-            # requester's wish not to hear about some classes of responses is
-            # carried along (successful codes as in 2.31 Continue keep
-            # flowing, they are part of the block-wise mechanics)
-            msg.opt.no_response = old_pr.request.opt.no_response
-        old_pr.add_response(msg, is_last=True)
+        def finish(msg):
+            if msg.opt.no_response is None and not msg.code.is_successful():
+                # Like with responses returned from a render method, the
+                # requester's wish not to hear about some classes of responses is
+                # carried along (successful codes as in 2.31 Continue keep
+                # flowing, they are part of the block-wise mechanics)
+                msg.opt.no_response = old_pr.request.opt.no_response
+            old_pr.add_response(msg, is_last=True)
+
+        try:
+            finish(msg)
+        except Exception as e3:
+            if not from_renderer:
+                raise
+            # What the error renderer produced can not be sent (it can not be
+            # serialized, its code is none); nobody is left on the call stack
+            # to turn that into an error response.
+            log.error("Rendered exception could not be sent: %r", e3, exc_info=e3)
+            finish(Message(code=INTERNAL_SERVER_ERROR))
 
         return False
 
